@@ -121,4 +121,56 @@ PROPS['C02'] = dict(
     not_decided=['max_dist / use_pruning / only_ub (C03, C09)', 'Cython option decoding (dtw_cc.pyx DTWSettings.__init__)'],
 )
 
+_CM = {'c-matrix-path-chains': lambda run: __import__('bounded.c_sweeps', fromlist=['x']).sweep_c_matrices(run)}
+_ALL_C_PROVED = (PROPS['C09']['contracts'][:10] + PROPS['C06']['contracts'][6:] + PROPS['C07']['contracts'] + PROPS['C02']['contracts'])
+
+PROPS['C08'] = dict(
+    modules=['contracts.ed_c', 'contracts.bounds_c', 'contracts.dtw_matrix_c', 'contracts.dtw_omp_c', 'contracts.dtw_c'],
+    contracts=[c for c in _ALL_C_PROVED if '::' in c],
+    lemmas=['LenFullClosed', 'LenRectClosed', 'RowsBefore', 'RowsBeyond', 'LenFullBeyond', 'LenRowsNonneg',
+            'RowAllInf', 'RowLeadInf', 'FoldMinIsMin'],
+    bounded=_CM,
+    level='proof',
+    level_text='For 27 exported C routines (Euclidean bounds, LB_Keogh, block/length helpers, the six serial and six OpenMP '
+               'distance-matrix routines with their prepare step, the four DTW kernels) every array access, every signed idx_t '
+               'operation, every division, every assert() and every pointer dereference is a discharged obligation under the '
+               'documented buffer sizes, for all lengths/windows/psi/blocks. The remaining exported routines (cost matrix in the '
+               'compact layout, expansion, slices, best path, warping path) are covered by a *bounded* sanitizer sweep only.',
+    level_note='Trusted: dvc C semantics (A2: mathematical integers + overflow obligations, distinct pointer parameters do not '
+               'alias), malloc succeeds (A6), gcc ASan/UBSan for the bounded part. Not covered at all: dtw_dba_*, affinity '
+               'kernels, dtw_wps_negativize/positivize, dtw_best_path_prob, print helpers.',
+    trusted_base=['A2: C semantics as encoded by dvc', 'A6: malloc succeeds', A7],
+    assumptions=['A2', 'A6', A7],
+    not_decided=['dtw_dba_ptrs/matrix, affinity kernels, wps negativize/positivize, best_path_prob: not covered',
+                 'cost-matrix / expansion / path routines: bounded sanitizer sweep only'],
+)
+
+PROPS['C04'] = dict(
+    modules=['contracts.dtw_py', 'contracts.dtw_c'],
+    contracts=['dtw.warping_paths'],
+    lemmas=[],
+    bounded=_CM,
+    level='proof',
+    level_text='Python: dtw.warping_paths is proved (unbounded) to return a (len1+1)x(len2+1) matrix whose every cell is '
+               'result_fn of the accumulated-cost recurrence W (inf outside the band / beyond max_step) and a distance equal '
+               'to result_fn(W(r,c)) -- the value dtw.distance is proved to return (C01) -- for window, penalty, max_step, '
+               'begin-psi, both inner distances. C engine (compact layout, expansion, slices): bounded chains against the '
+               'path-enumeration oracle only.',
+    level_note='End-of-series psi (the -1 marking and arg-min selection on NumPy slices) and keep_int_repr=True are not yet '
+               'under contract for the Python routine; the C cost-matrix family has recorded genuine defects (known_findings.json).',
+    trusted_base=[PY_A1, A3_NUMPY, A7],
+    assumptions=[PY_A1, A3_NUMPY, A7],
+    not_decided=['Python: end-of-series psi / psi_neg marking, keep_int_repr=True, max_dist (C03)',
+                 'C: unbounded proof of dtw_warping_paths_ndim / dtw_expand_wps(_slice) (bounded only)'],
+)
+
+PROPS['C05'] = dict(
+    modules=['contracts.dtw_c'],
+    contracts=[],
+    lemmas=[],
+    bounded=_CM,
+    level='exploration',
+    claimed=False,
+)
+
 NOT_APPLICABLE = {p: 'not decided yet: machinery for this property is still being built (see DESIGN.md §9 order of work)' for p in ['C01', 'C02', 'C03', 'C04', 'C05', 'C06', 'C07', 'C08', 'C09', 'C10', 'C11', 'C12', 'C13', 'C14', 'C15', 'C16', 'C17', 'C18', 'C19', 'C20'] if p not in PROPS}
